@@ -18,7 +18,10 @@ ASSUMPTIONS = c09.ASSUMPTIONS + ["reads only on objects no other thread uses (sh
 
 DICT_OPS = {k: c09.DICT_OPS[k] for k in ("setitem_diff", "setitem_same", "delitem", "update", "setdefault", "reset", "clear")}
 LIST_OPS = {k: c09.LIST_OPS[k] for k in ("append", "extend", "insert", "reset", "clear")}
-CORE = {"dict": ("setitem_diff", "update", "delitem", "reset", "clear"), "list": ("append", "insert", "reset", "clear")}
+# reads are allowed on objects no other thread is using (topologies with one object per thread)
+DICT_OPS["read"] = lambda t: ("len", ())
+LIST_OPS["read"] = lambda t: ("len", ())
+CORE = {"dict": ("setitem_diff", "update", "delitem", "reset", "clear", "read"), "list": ("append", "insert", "reset", "clear", "read")}
 CORE3 = {"dict": ("setitem_diff", "reset", "clear"), "list": ("append", "reset", "clear")}
 OPS = {"dict": DICT_OPS, "list": LIST_OPS}
 INIT = {"dict": {"k": 0, "c": {"k": 0}}, "list": [0, [0, 1]]}
@@ -67,6 +70,8 @@ def plan(tier, seed):
         for topo in TOPOS:
             for capname, cap in capacities(c, tier):
                 for a, b in itertools.combinations_with_replacement(names, 2):
+                    if "read" in (a, b) and (topo == "one-object" or a == b):
+                        continue  # shared-object reads are C14; read||read is not a writer program
                     p1.append(build(c, topo, [a, b], capname, cap))
                 if tier != "quick":
                     for a, b in itertools.combinations_with_replacement(CORE3[k], 2):
